@@ -1436,6 +1436,21 @@ impl HandlerRunner {
                 self.wire.push(Datagram { from_idx: ATTACKER, src: node_addr(ATTACKER), dst, dst_id: denr.node_id(), bytes });
                 true
             }
+            // hcraft zerokey CLAIMED_SRC DST BODY : a request claiming src id of node CLAIMED_SRC, sealed
+            // under the all-zero AES key (what a wiped key slot holds) and bound to its own header
+            "zerokey" => {
+                let (Some((_, senr)), Some((_, denr))) = (self.key_for_idx(get(0)), self.key_for_idx(get(1))) else { return false };
+                let nonce: [u8; 12] = r.bytes(12).try_into().unwrap();
+                let body = Request { id: rid_bytes(800_000 + self.wire.len() as u64), body: body_of(get(2).max(1)) }.encode();
+                let zero = [0u8; 16];
+                let Some(bytes) = hf::craft_message(senr.node_id(), &denr.node_id(), nonce, &zero, &body) else { return false };
+                // whoever seals under a key nobody negotiated is the attacker
+                self.ledger.sealed.entry((zero, body)).or_insert(ATTACKER);
+                stats.bump("h.craft.zero-key-message");
+                let dst = node_addr(get(1));
+                self.wire.push(Datagram { from_idx: ATTACKER, src: node_addr(get(0)), dst, dst_id: denr.node_id(), bytes });
+                true
+            }
             // hcraft whoareyou DST ECHO_WIRE_K ENRSEQ : a WHOAREYOU echoing the nonce of wire datagram K
             "whoareyou" => {
                 let Some((_, denr)) = self.key_for_idx(get(0)) else { return false };
@@ -1621,6 +1636,34 @@ pub fn gen_case(rng: &mut Rng, tier: &str, profile: &str, stats: &mut Stats) -> 
         ops.push(format!("hresp {} next auto", y));
         ops.push("hdel next".into());
         emitted += 4;
+    }
+    if (profile == "C01" || profile == "C02") && !dual_redirect && rng.chance(1, 5) {
+        // directed prefix: a session is re-keyed by a genuine exchange (the peer could not read a
+        // damaged request and challenged it), traffic flows under the new keys, and then a request
+        // sealed under the all-zero key arrives from the peer's address; once more after a further re-key
+        stats.bump("gen.cases.directed-zero-key-after-rekey");
+        let x = rng.range(1, n);
+        let y = other(rng, x);
+        ops.push(format!("hreq {} {} enr {} 1", x, y, rid)); rid += 1;
+        ops.push("hdel next".into());
+        ops.push(format!("hwru {} next known", y));
+        for _ in 0..2 { ops.push("hdel next".into()); }
+        ops.push(format!("hresp {} next auto", y));
+        ops.push("hdel next".into());
+        for _ in 0..rng.range(1, 2) {
+            ops.push(format!("hreq {} {} enr {} {}", x, y, rid, rng.range(1, 4))); rid += 1;
+            ops.push(format!("hmut next flip {}", 600 + rng.below(100)));
+            ops.push("hdel last".into());
+            ops.push("hdel skip".into());
+            ops.push(format!("hwru {} next known", y));
+            for _ in 0..2 { ops.push("hdel next".into()); }
+            ops.push(format!("hresp {} next auto", y));
+            ops.push("hdel next".into());
+            let (victim, claimed) = if rng.chance(1, 2) { (x, y) } else { (y, x) };
+            ops.push(format!("hcraft zerokey {} {} {}", claimed, victim, rng.range(1, 4)));
+            ops.push("hdel last".into());
+        }
+        emitted += 8;
     }
     if (profile == "C03" && rng.chance(1, 4)) || rng.chance(1, 16) {
         // directed prefix: a request has done its handshake and is unanswered; the session is
@@ -1827,6 +1870,11 @@ pub fn gen_case(rng: &mut Rng, tier: &str, profile: &str, stats: &mut Stats) -> 
                             ops.push(format!("hcraft handshake {} 9 {} w {} 1", x, y, rec));
                             ops.push(format!("hdel last {}", if rng.chance(1, 2) { x } else { 9 }));
                         }
+                    }
+                    7 if rng.chance(1, 2) => {
+                        // a request sealed under the all-zero key, from the claimed peer's own address
+                        ops.push(format!("hcraft zerokey {} {} {}", x, y, rng.range(1, 4)));
+                        ops.push("hdel last".into());
                     }
                     _ => {
                         if emitted > 0 {
